@@ -1367,3 +1367,17 @@ func (f *Facts) entryAtomsAt(fn *ssa.Function, at ssa.Instruction) []Atom {
 	}
 	return out
 }
+
+// AtomsOnEdge returns the atoms holding when control passes from block p to its successor b: those holding at the
+// end of p plus the outcome of p's branch.
+func (f *Facts) AtomsOnEdge(p, b *ssa.BasicBlock) []Atom {
+	if len(p.Instrs) == 0 {
+		return nil
+	}
+	last := p.Instrs[len(p.Instrs)-1]
+	out := append([]Atom{}, f.AtomsAt(last)...)
+	if ifi, ok := last.(*ssa.If); ok && p.Succs[0] != p.Succs[1] {
+		out = append(out, f.expandAtoms([]Atom{f.atomOf(ifi.Cond, p.Succs[0] == b)})...)
+	}
+	return out
+}
